@@ -1,7 +1,7 @@
 use std::collections::{BTreeSet, HashSet};
 use std::{collections::HashMap, fs};
 
-use crate::analyzer::optimizations::Optimization;
+use crate::analyzer::optimizations::{get_all_optimizations, Optimization};
 
 use crate::analyzer::utils::LineNumber;
 use crate::report::report_sections::optimizations::{
@@ -19,10 +19,18 @@ pub fn generate_optimization_report(
 
     let mut total_optimizations_found = 0;
 
-    for optimization in optimizations {
-        if optimization.1.len() > 0 {
-            let optimization_target = optimization.0;
-            let matches = optimization.1;
+    let mut optimizations = optimizations;
+
+    //Render the patterns in declaration order and the files of each pattern in sorted order: the report then depends
+    //only on the findings, not on the iteration order of the HashMap or on the order in which files were discovered
+    for optimization_target in get_all_optimizations() {
+        let mut matches = match optimizations.remove(&optimization_target) {
+            Some(matches) => matches,
+            None => continue,
+        };
+        matches.sort();
+
+        if matches.len() > 0 {
 
             let report_section = get_optimization_report_section(optimization_target);
 
